@@ -125,6 +125,9 @@ def install():
     def after_abort(self, a, k, r, e):
         _emit(ev='AbortTxn', conn=_cname_of_instance(self._normal_storage))
 
+    def after_tpc_abort(self, a, k, r, e):
+        _emit(ev='TpcAbort', conn=_cname_of_instance(self._normal_storage))
+
     def after_conn_init(self, a, k, r, e):
         if e is None and getattr(ctx, 'recording', False) and self.before is None:
             counter[0] += 1
@@ -187,6 +190,7 @@ def install():
     wrap(FileStorage, '_finish_finish', after=after_finish_finish)
     wrap(MappingStorage, 'tpc_finish', after=after_map_finish)
     wrap(C, 'abort', after=after_abort)
+    wrap(C, 'tpc_abort', after=after_tpc_abort)
     wrap(C, '__init__', after=after_conn_init)
     wrap(C, 'open', before=before_conn_open)
     wrap(sys.modules['ZODB.DB'].DB, '_returnToPool', after=after_return_to_pool)
@@ -197,6 +201,36 @@ def install():
     _installed = True
 
 
+class _VoteFailed(Exception):
+    pass
+
+
+class _FailingVoter:
+    """a resource manager that sorts after the connection and fails in tpc_vote"""
+    transaction_manager = None
+
+    def sortKey(self):
+        return '~~~~failing-voter'
+
+    def abort(self, txn):
+        pass
+
+    def tpc_begin(self, txn):
+        pass
+
+    def commit(self, txn):
+        pass
+
+    def tpc_vote(self, txn):
+        raise _VoteFailed()
+
+    def tpc_finish(self, txn):
+        pass
+
+    def tpc_abort(self, txn):
+        pass
+
+
 class _NoLog(list):
     """the operation log is not needed for schedules"""
 
@@ -204,7 +238,7 @@ class _NoLog(list):
         pass
 
 
-OPS = ('r', 'wx', 'wy', 'rw', 'rx', 'co', 'u1', 'u2', 'cx', 'csx', 'wa', 'mr', 'sy')
+OPS = ('r', 'wx', 'wy', 'rw', 'rx', 'co', 'u1', 'u2', 'cx', 'csx', 'wa', 'mr', 'sy', 'va')
 
 
 def gen_programs(rng, nthreads=2, length=4):
@@ -226,6 +260,7 @@ def scenario(job):
     sched.S = None
     from .. import faultfs
     kw = dict(kw or {})
+    pad = kw.pop('pad', 0)
     if kw.pop('yield_io', False) and kind == 'file':
         # file-I/O granularity: raw reads/writes of the data file are yield points too
         faultfs.install()
@@ -249,6 +284,11 @@ def scenario(job):
     c0 = db0.open(tm0)
     c0.root()['x'] = MinPO(0)
     c0.root()['y'] = MinPO(0)
+    if pad:
+        # records larger than a read buffer: loads need raw reads of their own (otherwise the first read of a pooled
+        # file pulls the whole small data file into its buffer and no later load touches the file again)
+        c0.root()['x'].pad = 'x' * pad
+        c0.root()['y'].pad = 'y' * pad
     tm0.commit()
     name_of_oid[c0.root()['x']._p_oid] = 'x'
     name_of_oid[c0.root()['y']._p_oid] = 'y'
@@ -257,7 +297,10 @@ def scenario(job):
     init_id = base64.encodebytes(storage.lastTransaction()).rstrip()
     c0.close()
     db = ZODB.DB(storage, pool_size=4)        # a second DB on the same storage: fresh adapter, empty pool
-    Sc = sched.S = sched.Sched(seed, **(kw or {}))
+    if 'plan' in kw:
+        Sc = sched.S = sched.Plan(kw['plan'], kw['order'])
+    else:
+        Sc = sched.S = sched.Sched(seed, **(kw or {}))
     errors = []
     # DB.__init__ used (and pooled) a connection of its own: it is part of the initial state - name it and put it
     # into the model's pool by a synthetic Open/Close pair
@@ -325,6 +368,14 @@ def scenario(job):
                     elif op == 'rx':
                         _ = r['x'].value
                         tm.abort()
+                    elif op == 'va':
+                        # a second participant whose vote fails: the storage has voted and is then aborted
+                        r['x'].value += 1
+                        tm.get().join(_FailingVoter())
+                        try:
+                            tm.commit()
+                        except _VoteFailed:
+                            tm.abort()
                     elif op == 'wa':
                         # modify and abort: the modified copy is dropped, the next read loads at the snapshot again
                         r['x'].value += 1
@@ -391,4 +442,4 @@ def scenario(job):
         out.append(e)
     return {'trace': out, 'outcome': outcome, 'errors': errs, 'steps': Sc.steps, 'kind': kind, 'programs': programs,
             'seed': seed, 'commits': sum(1 for e in out if e['ev'] == 'Publish'),
-            'switches': sum(1 for a, b in zip(Sc.choices, Sc.choices[1:]) if a != b)}
+            'switches': sum(1 for a, b in zip(Sc.choices, Sc.choices[1:]) if a != b), 'yields': dict(getattr(Sc, 'yields', {}))}
